@@ -56,12 +56,38 @@ def load_repo():
     import ply.yacc as _yacc
     if not getattr(_yacc.yacc, '_verif_wrapped', False):
         _orig = _yacc.yacc
+        _tab_cache = {}
 
         def yacc_no_write(*a, **kw):
-            kw['write_tables'] = False
+            """never let ply rewrite the parsetab inside /repo.  When the grammar under test differs from the
+            cached table (signature mismatch) ply regenerates the LALR tables on EVERY construction; to keep
+            checks that build many parsers fast, the first regeneration is written to a scratch directory
+            and handed back to ply as a module object afterwards."""
             kw.setdefault('debug', False)
             kw['errorlog'] = _yacc.NullLogger()
-            return _orig(*a, **kw)
+            key = (type(kw.get('module')), str(kw.get('tabmodule')))
+            mod = _tab_cache.get(key)
+            if mod is None:
+                import importlib.util
+                import tempfile
+                os.makedirs(RUN_DIR, exist_ok=True)
+                d = tempfile.mkdtemp(prefix='parsetab_', dir=RUN_DIR)
+                try:
+                    parser = _orig(*a, **dict(kw, write_tables=True, outputdir=d))
+                    fn = os.path.join(d, str(kw.get('tabmodule', 'parsetab')).split('.')[-1] + '.py')
+                    if os.path.exists(fn):
+                        spec = importlib.util.spec_from_file_location('verif_scratch_parsetab_%d' % len(_tab_cache), fn)
+                        m = importlib.util.module_from_spec(spec)
+                        spec.loader.exec_module(m)
+                        _tab_cache[key] = m
+                    else:
+                        _tab_cache[key] = 'package'      # the table cached in the package was valid and was used
+                finally:
+                    shutil.rmtree(d, ignore_errors=True)
+                return parser
+            if mod == 'package':
+                return _orig(*a, **dict(kw, write_tables=False))
+            return _orig(*a, **dict(kw, tabmodule=mod, write_tables=False))
         yacc_no_write._verif_wrapped = True
         _yacc.yacc = yacc_no_write
     import hotxlfp  # noqa: F401
